@@ -5,12 +5,14 @@
 //!
 //! One case line = one history:
 //!   H? <tables> <tokens> <dcs> <op> <op> ... | <obs step 1> <obs step 2> ...
-//! H? = generator part: Hs scenario, Hx reachable-set exhaustive, Hm reachable set + maintenance + every insert, Ha short exhaustive alphabet, Hr random over the
+//! H? = generator part: Hs scenario, Hx reachable-set exhaustive, Hm reachable set + maintenance + every insert, Ha short exhaustive alphabet, Ht several tables (short exhaustive alphabet), Hr random over the
 //! 8-point universe, Hi / Hl random over i64 (short / long), Hd random with datacenter-changing recreations
 //! tables  ks.tb,ks.tb            (hex)            watched tables
 //! tokens  t,t,...                (signed hex)     watched tokens
 //! dcs     d,d,...                (hex)            watched datacenters
-//! op      L/<ks>.<tb>/<a>/<b>/<h>.<shard>,.. | -/<known nodes>
+//! Pb <value bytes hex | N (key absent)> | none | a:<first>:<last>:<host.shard,..> | r<error class>   (from_custom_payload alone)
+//! op      B/<ks>.<tb>/<value bytes hex | N>/<known nodes>     (result tag as for Pb)
+//!         L/<ks>.<tb>/<a>/<b>/<h>.<shard>,.. | -/<known nodes>
 //!         M/<keyspaces>/<removed hosts>/<current nodes>/<recreated nodes>
 //!   node      <host>.<gen>.<dc|n>         keyspace  <ks>:<0|1>:<t+t|->:<v+v|->
 //! obs     <res>~<info flag>~<table>~<table>...    res: a | rWrongTokenRange | rShardNum | m | panic
@@ -50,6 +52,8 @@ enum Op {
     Maintain { kss: Vec<KsD>, removed: Vec<u128>, current: Vec<NodeD>, recreated: Vec<NodeD> },
     /// ClusterState::perform_tablets_maintenance(tablets, old_known_nodes, new_known_nodes, keyspaces)
     Refresh { kss: Vec<KsD>, old: Vec<NodeD>, new: Vec<NodeD> },
+    /// a custom payload whose "tablets-routing-v1" value is the given byte string (None: key absent)
+    LearnBytes { ks: u32, tb: u32, bytes: Option<Vec<u8>>, known: Vec<NodeD> },
 }
 fn kss_s(kss: &[KsD]) -> String {
     join(kss, ",", |k| {
@@ -128,6 +132,16 @@ fn op_s(o: &Op) -> String {
             join(recreated, ",", node_s)
         ),
         Op::Refresh { kss, old, new } => format!("R/{}/{}/{}", kss_s(kss), join(old, ",", node_s), join(new, ",", node_s)),
+        Op::LearnBytes { ks, tb, bytes, known } => format!(
+            "B/{}.{}/{}/{}",
+            hex_u(*ks as u128),
+            hex_u(*tb as u128),
+            match bytes {
+                None => "N".to_string(),
+                Some(b) => hex_bytes(b),
+            },
+            join(known, ",", node_s)
+        ),
     }
 }
 
@@ -139,6 +153,32 @@ fn p_i(s: &str) -> i128 {
 }
 fn p_list<'a>(s: &'a str, sep: char) -> Vec<&'a str> {
     if s == "-" { vec![] } else { s.split(sep).collect() }
+}
+fn p_hexbytes(s: &str) -> Option<Vec<u8>> {
+    match s {
+        "N" => None,
+        "-" => Some(vec![]),
+        _ => Some((0..s.len() / 2).map(|i| u8::from_str_radix(&s[2 * i..2 * i + 2], 16).unwrap()).collect()),
+    }
+}
+/// RawTablet::from_custom_payload on the given value bytes, decoded content visible
+fn decode_tag(bytes: &Option<Vec<u8>>) -> Option<String> {
+    let payload: HashMap<String, Bytes> = match bytes {
+        None => HashMap::from([("some-other-key".to_string(), Bytes::from_static(&[1, 2, 3]))]),
+        Some(b) => HashMap::from([(PAYLOAD_KEY.to_string(), Bytes::from(b.clone()))]),
+    };
+    let r = catch(std::panic::AssertUnwindSafe(|| scylla::routing::locator::verif_tablets::raw_tablet_from_payload(&payload)));
+    match r {
+        Err(_) => None,
+        Ok(None) => Some("none".into()),
+        Ok(Some(Ok((f, l, reps)))) => Some(format!(
+            "a:{}:{}:{}",
+            hex_i(f as i128),
+            hex_i(l as i128),
+            join(&reps, ",", |(u, sh)| format!("{}.{}", hex_u(u.as_u128()), hex_u(*sh as u128)))
+        )),
+        Ok(Some(Err(e))) => Some(format!("r{}", e)),
+    }
 }
 fn p_dc(s: &str) -> Option<u32> {
     if s == "n" { None } else { Some(p_u(s) as u32) }
@@ -184,6 +224,15 @@ fn p_op(s: &str) -> Op {
             current: p_list(f[3], ',').iter().map(|x| p_node(x)).collect(),
             recreated: p_list(f[4], ',').iter().map(|x| p_node(x)).collect(),
         },
+        "B" => {
+            let kt: Vec<&str> = f[1].split('.').collect();
+            Op::LearnBytes {
+                ks: p_u(kt[0]) as u32,
+                tb: p_u(kt[1]) as u32,
+                bytes: p_hexbytes(f[2]),
+                known: p_list(f[3], ',').iter().map(|x| p_node(x)).collect(),
+            }
+        }
         "R" => Op::Refresh {
             kss: p_kss(f[1]),
             old: p_list(f[2], ',').iter().map(|x| p_node(x)).collect(),
@@ -391,6 +440,22 @@ fn apply(v: &mut VerifTablets, nodes: &mut Nodes, o: &Op) -> Option<String> {
                 Ok(()) => Some("m".into()),
             }
         }
+        Op::LearnBytes { ks, tb, bytes, known } => {
+            let known = nodes.map(known);
+            let tag = decode_tag(bytes)?;
+            let payload: HashMap<String, Bytes> = match bytes {
+                None => HashMap::from([("some-other-key".to_string(), Bytes::from_static(&[1, 2, 3]))]),
+                Some(b) => HashMap::from([(PAYLOAD_KEY.to_string(), Bytes::from(b.clone()))]),
+            };
+            let (ksn, tbn) = (format!("ks{:x}", ks), format!("t{:x}", tb));
+            let r = catch(std::panic::AssertUnwindSafe(|| {
+                scylla::cluster::verif_update_tablets::update_tablets_from_payload(v, &known, &ksn, &tbn, &payload)
+            }));
+            match r {
+                Err(_) => None,
+                Ok(_) => Some(tag),
+            }
+        }
         Op::Refresh { kss, old, new } => {
             let kss = ks_descs(kss);
             let old = nodes.map(old);
@@ -564,6 +629,51 @@ fn gen_exhaustive_short(out: &mut Out, len: usize) -> usize {
     }
 }
 
+/// Several tables: all histories of the given length over an alphabet of payloads for two known tables and
+/// one table the schema does not list, and maintenance calls whose schema keeps everything / drops table
+/// (2,1) / turns keyspace 2 into a non-tablet keyspace / is empty / lists a table nobody has tablets for.
+fn gen_tables_alphabet(out: &mut Out, len: usize) -> usize {
+    let known = vec![nd(1, 0, Some(0)), nd(2, 0, Some(1))];
+    let mut letters: Vec<Op> = Vec::new();
+    for (ks, tb) in [(1u32, 1u32), (2, 1), (3, 7)] {
+        for (a, b, h) in [(0i64, 10i64, 1u128), (5, 20, 2), (10, 30, 3)] {
+            if (ks, tb) == (3, 7) && a != 0 {
+                continue;
+            }
+            letters.push(Op::Learn { ks, tb, a, b, raw: vec![(h, 0)], known: known.clone() });
+        }
+    }
+    let ks = |k: u32, tbased: bool, tables: Vec<u32>, views: Vec<u32>| KsD { ks: k, tablet_based: tbased, tables, views };
+    let full = vec![ks(1, true, vec![1], vec![]), ks(2, true, vec![1, 2], vec![])];
+    letters.push(Op::Maintain { kss: full.clone(), removed: vec![], current: known.clone(), recreated: vec![] });
+    letters.push(Op::Maintain { kss: vec![ks(1, true, vec![1], vec![]), ks(2, true, vec![2], vec![])], removed: vec![], current: known.clone(), recreated: vec![] });
+    letters.push(Op::Maintain { kss: vec![ks(1, true, vec![], vec![1]), ks(2, false, vec![1, 2], vec![])], removed: vec![], current: known.clone(), recreated: vec![] });
+    letters.push(Op::Maintain { kss: vec![], removed: vec![], current: known.clone(), recreated: vec![] });
+    letters.push(Op::Refresh { kss: full, old: known.clone(), new: vec![nd(1, 0, Some(0)), nd(3, 0, Some(1))] });
+    let k = letters.len();
+    let mut idx = vec![0usize; len];
+    let mut lines = 0;
+    loop {
+        let ops: Vec<Op> = idx.iter().map(|i| letters[*i].clone()).collect();
+        let h = Hist { kind: "Ht", tables: vec![(1, 1), (2, 1), (2, 2), (3, 7)], tokens: vec![0, 1, 6, 10, 11, 21, 30, 31], dcs: vec![0, 1], ops };
+        let (o, _) = run_hist(&h);
+        out.case(&hist_s(&h), &o);
+        lines += 1;
+        let mut p = len;
+        loop {
+            if p == 0 {
+                return lines;
+            }
+            p -= 1;
+            idx[p] += 1;
+            if idx[p] < k {
+                break;
+            }
+            idx[p] = 0;
+        }
+    }
+}
+
 /// The cluster as the harness imagines it while generating a random history.
 struct World {
     known: Vec<NodeD>,       // ClusterState.known_nodes
@@ -653,6 +763,20 @@ fn gen_random_history(r: &mut Rng, kind: &'static str, len: usize, small: bool, 
                 1 => removed.push(*r.pick(&hosts)),
                 2 => current.clear(),
                 3 => recreated.clear(),
+                // overlapping arguments: a recreated host that is also removed; a removed host that is still current
+                4 if !recreated.is_empty() => removed.push(r.pick(&recreated).host),
+                5 if !current.is_empty() => removed.push(r.pick(&current).host),
+                // duplicate keys in the map arguments (the first entry counts, here and in the model)
+                6 if !current.is_empty() => {
+                    let mut d = r.pick(&current).clone();
+                    d.generation += 100;
+                    current.push(d);
+                }
+                7 if !recreated.is_empty() => {
+                    let mut d = r.pick(&recreated).clone();
+                    d.generation += 200;
+                    recreated.push(d);
+                }
                 _ => perturbed = false,
             }
             // schema changes
@@ -706,7 +830,13 @@ fn gen_random_history(r: &mut Rng, kind: &'static str, len: usize, small: bool, 
                 let s = if r.chance(1, 40) { -(r.range(1, 3) as i32) } else { r.below(8) as i32 };
                 raw.push((h, s));
             }
-            ops.push(Op::Learn { ks, tb, a, b, raw, known: w.known.clone() });
+            if r.chance(1, 5) {
+                // the same payload as bytes, possibly corrupted
+                let bytes = if r.chance(1, 100) { None } else { Some(gen_payload_bytes(r, a, b, &raw)) };
+                ops.push(Op::LearnBytes { ks, tb, bytes, known: w.known.clone() });
+            } else {
+                ops.push(Op::Learn { ks, tb, a, b, raw, known: w.known.clone() });
+            }
         }
     }
     // watched tokens: every bound that occurs and its neighbours (sampled), the extremes, random ones
@@ -733,6 +863,131 @@ fn gen_random_history(r: &mut Rng, kind: &'static str, len: usize, small: bool, 
     }
     let tables = if r.chance(1, 2) { vec![(1, 1)] } else { vec![(1, 1), (1, 3), (2, 1)] };
     Hist { kind, tables, tokens: toks.into_iter().collect(), dcs: vec![0, 1, 2], ops }
+}
+
+/// Byte strings for the "tablets-routing-v1" value: the valid encoding of (a, b, raw) with up to two
+/// corruptions (structured: wrong lengths / counts / nulls / missing fields; unstructured: truncation,
+/// trailing bytes, flipped bytes, trash).
+fn gen_payload_bytes(r: &mut Rng, a: i64, b: i64, raw: &[(u128, i32)]) -> Vec<u8> {
+    let mut v: Vec<u8> = Vec::new();
+    let mut int_pos: Vec<usize> = Vec::new(); // offsets of every 4-byte length / count field
+    let put_int = |v: &mut Vec<u8>, x: i32, pos: &mut Vec<usize>| {
+        pos.push(v.len());
+        v.extend_from_slice(&x.to_be_bytes());
+    };
+    let nfields = if r.chance(1, 25) { r.below(3) as usize } else { 3 };
+    if nfields >= 1 {
+        put_int(&mut v, 8, &mut int_pos);
+        v.extend_from_slice(&a.to_be_bytes());
+    }
+    if nfields >= 2 {
+        put_int(&mut v, 8, &mut int_pos);
+        v.extend_from_slice(&b.to_be_bytes());
+    }
+    if nfields >= 3 {
+        let mut l: Vec<u8> = Vec::new();
+        let mut lpos: Vec<usize> = Vec::new();
+        let count = raw.len() as i32 + if r.chance(1, 30) { r.range(0, 2) as i32 - 1 } else { 0 };
+        put_int(&mut l, count, &mut lpos);
+        for (h, s) in raw {
+            let mut e: Vec<u8> = Vec::new();
+            let mut epos: Vec<usize> = Vec::new();
+            let ub = h.to_be_bytes();
+            let ulen = if r.chance(1, 60) { *r.pick(&[0usize, 8, 15]) } else { 16 };
+            put_int(&mut e, ulen as i32, &mut epos);
+            e.extend_from_slice(&ub[..ulen]);
+            if !r.chance(1, 80) {
+                let sb = s.to_be_bytes();
+                let slen = if r.chance(1, 60) { *r.pick(&[0usize, 2, 3]) } else { 4 };
+                put_int(&mut e, slen as i32, &mut epos);
+                e.extend_from_slice(&sb[..slen]);
+            }
+            let base = l.len() + 4;
+            put_int(&mut l, e.len() as i32, &mut lpos);
+            lpos.extend(epos.iter().map(|p| base + p));
+            l.extend_from_slice(&e);
+        }
+        let base = v.len() + 4;
+        if r.chance(1, 60) {
+            put_int(&mut v, -1, &mut int_pos); // null list
+        } else {
+            put_int(&mut v, l.len() as i32, &mut int_pos);
+            int_pos.extend(lpos.iter().map(|p| base + p));
+            v.extend_from_slice(&l);
+        }
+    }
+    let nmut = *r.pick(&[0u32, 0, 0, 0, 1, 1, 1, 2]);
+    for _ in 0..nmut {
+        match r.below(6) {
+            0 if !v.is_empty() => {
+                let k = r.below(v.len() as u64) as usize;
+                v.truncate(k);
+                int_pos.retain(|p| p + 4 <= k);
+            }
+            1 => {
+                let extra = r.range(1, 9) as usize;
+                let bytes = r.bytes(extra);
+                v.extend_from_slice(&bytes);
+            }
+            2 if !v.is_empty() => {
+                let k = r.below(v.len() as u64) as usize;
+                v[k] ^= 1 << r.below(8);
+            }
+            3 | 4 if !int_pos.is_empty() => {
+                let p = *r.pick(&int_pos);
+                let old = i32::from_be_bytes([v[p], v[p + 1], v[p + 2], v[p + 3]]);
+                let new = match r.below(8) {
+                    0 => -1,
+                    1 => -2,
+                    2 => 0,
+                    3 => old.wrapping_add(1),
+                    4 => old.wrapping_sub(1),
+                    5 => i32::MAX,
+                    6 => i32::MIN,
+                    _ => r.below(40) as i32,
+                };
+                v[p..p + 4].copy_from_slice(&new.to_be_bytes());
+            }
+            _ => {
+                if r.chance(1, 4) {
+                    let n = r.below(24) as usize;
+                    v = r.bytes(n);
+                    int_pos.clear();
+                }
+            }
+        }
+    }
+    v
+}
+
+fn gen_payload_case(r: &mut Rng) -> Option<Vec<u8>> {
+    if r.chance(1, 200) {
+        return None;
+    }
+    let small = r.chance(1, 3);
+    let a = gen_bound(r, small, &[]);
+    let mut b = gen_bound(r, small, &[a]);
+    if r.chance(1, 2) && b <= a {
+        b = a.saturating_add(r.range(0, 3) as i64);
+    }
+    let nrep = *r.pick(&[0usize, 1, 2, 3, 5]);
+    let raw: Vec<(u128, i32)> = (0..nrep)
+        .map(|_| {
+            let h = match r.below(4) {
+                0 => r.below(8) as u128,
+                1 => u128::MAX - r.below(3) as u128,
+                _ => ((r.u64() as u128) << 64) | r.u64() as u128,
+            };
+            let s = match r.below(12) {
+                0 => -(r.range(1, 5) as i32),
+                1 => i32::MAX,
+                2 => i32::MIN,
+                _ => r.below(64) as i32,
+            };
+            (h, s)
+        })
+        .collect();
+    Some(gen_payload_bytes(r, a, b, &raw))
 }
 
 /// Histories built to hit the two known findings and their neighbourhood deterministically.
@@ -794,6 +1049,11 @@ fn main() {
     let mut out = Out::create(&a.out);
     if let Some(p) = &a.replay {
         for c in read_cases(p) {
+            if let Some(hx) = c.strip_prefix("Pb ") {
+                let o = decode_tag(&p_hexbytes(hx.trim())).unwrap_or("panic".into());
+                out.case(&c, &o);
+                continue;
+            }
             let h = p_hist(&c);
             let (o, _) = run_hist(&h);
             out.case(&c, &o);
@@ -807,7 +1067,19 @@ fn main() {
     eprintln!("c15: exhaustive part: {} reachable range sets, {} histories", states, lines);
     let short = gen_exhaustive_short(&mut out, if thorough { 4 } else { 3 });
     eprintln!("c15: short exhaustive histories: {}", short);
+    let multi = gen_tables_alphabet(&mut out, if thorough { 5 } else { 4 });
+    eprintln!("c15: several-tables histories: {}", multi);
     let mut r = Rng::new(a.seed);
+    // Pb: RawTablet::from_custom_payload alone on generated / corrupted byte strings (8 per random history)
+    for fixed in [Some(vec![]), Some(vec![1, 2, 3]), None] {
+        let o = decode_tag(&fixed).unwrap_or("panic".into());
+        out.case(&format!("Pb {}", match &fixed { None => "N".to_string(), Some(b) => hex_bytes(b) }), &o);
+    }
+    for _ in 0..a.n * 8 {
+        let b = gen_payload_case(&mut r);
+        let o = decode_tag(&b).unwrap_or("panic".into());
+        out.case(&format!("Pb {}", match &b { None => "N".to_string(), Some(b) => hex_bytes(b) }), &o);
+    }
     for i in 0..a.n {
         let h = match i % 4 {
             0 => { let len = r.range(8, 40) as usize; gen_random_history(&mut r, "Hr", len, true, false) }
